@@ -198,6 +198,70 @@ func H_C11_constant(v *zzverif.T) {
 			}
 		}
 		attrs = append(attrs, zzAttrT("value", tp))
+	case "value_raw":
+		// the value tensor as little-endian raw bytes, n elements of the element type
+		shape = []int{n}
+		le := func(raw []byte, i, w int) uint64 {
+			var x uint64
+			for k := 0; k < w; k++ {
+				x |= uint64(raw[i*w+k]) << (8 * uint(k))
+			}
+			return x
+		}
+		width := map[string]int{"int8": 1, "uint8": 1, "int16": 2, "uint16": 2, "int32": 4, "uint32": 4, "int64": 8, "uint64": 8}[v.CStr("dtype")]
+		code := map[string]int32{"int8": 3, "uint8": 2, "int16": 5, "uint16": 4, "int32": 6, "uint32": 12, "int64": 7, "uint64": 13}[v.CStr("dtype")]
+		raw := zzverif.Syms[byte](v, "raw", n*width)
+		switch v.CStr("dtype") {
+		case "int8":
+			w := make([]int8, n)
+			for i := range w {
+				w[i] = int8(le(raw, i, width))
+			}
+			wantAny = w
+		case "uint8":
+			w := make([]uint8, n)
+			for i := range w {
+				w[i] = uint8(le(raw, i, width))
+			}
+			wantAny = w
+		case "int16":
+			w := make([]int16, n)
+			for i := range w {
+				w[i] = int16(le(raw, i, width))
+			}
+			wantAny = w
+		case "uint16":
+			w := make([]uint16, n)
+			for i := range w {
+				w[i] = uint16(le(raw, i, width))
+			}
+			wantAny = w
+		case "int32":
+			w := make([]int32, n)
+			for i := range w {
+				w[i] = int32(le(raw, i, width))
+			}
+			wantAny = w
+		case "uint32":
+			w := make([]uint32, n)
+			for i := range w {
+				w[i] = uint32(le(raw, i, width))
+			}
+			wantAny = w
+		case "int64":
+			w := make([]int64, n)
+			for i := range w {
+				w[i] = int64(le(raw, i, width))
+			}
+			wantAny = w
+		case "uint64":
+			w := make([]uint64, n)
+			for i := range w {
+				w[i] = le(raw, i, width)
+			}
+			wantAny = w
+		}
+		attrs = append(attrs, zzAttrT("value", &onnx.TensorProto{DataType: code, Dims: []int64{int64(n)}, RawData: append([]byte(nil), raw...)}))
 	case "none":
 		expectErr = true
 	case "two":
